@@ -272,6 +272,8 @@ def sequence_cases(tier):
                 content = content.encode('latin-1')
             for ci, kw in enumerate(({'version': 1}, {'symbol_count': 2}, {'version': 2, 'error': 'Q', 'boost_error': False}, {'symbol_count': 5, 'error': 'H'},
                                      {'symbol_count': 1})):
+                if 'version' in kw and n > 150:
+                    continue  # keeps clear of the 16 symbol limit (known finding K3 of C08)
                 if (n + ci) % 3 and tier == 'quick' and n > 40:
                     continue
                 cases.append({'fn': 'make_sequence', 'content': enc_content(content), 'kw': kw,
